@@ -24,6 +24,7 @@ OUTSIDE = ['edit strings that merge with their neighbours into one grapheme clus
            'HashSet iteration order fixed to insertion order (results compared as sets)']
 ASSUMPTIONS = ['rand modelled as every stream', 'can_delete / can_swap are arbitrary Boolean functions']
 KNOWN_MATCHERS = {}
+VALIDATION_ALLOW_FORKS = True
 KINDS = ['insert', 'delete', 'replace', 'swap']
 TABLES = [(['x'], [1.0]), (['yz', ''], [0.5, 0.5])]
 
